@@ -62,7 +62,7 @@ CHECKS = [
  ('C10', 'other', 'static path enumeration: authority predicate coverage and provenance per branch',
   'Partial: the predicate that lets the authority be omitted compares user info, host by kind and port on every "equal" path; '
   'provenance per branch; "./" guard; error codes before allocation; the common-prefix walk never treats the last segment of only '
-  'one path as common. Not decided: that the prefix walk and ".." emission invert resolution in general.'),
+  'one path as common, nor steps over the source\'s last segment when the base\'s query must not be inherited. Not decided: that the prefix walk and ".." emission invert resolution in general.'),
  ('C11', 'proof', 'static path enumeration with field obligations',
   'Every path of uriEqualsUri / uriCompareRange is enumerated with the primitive tests as atoms; a TRUE return has established '
   'equality of every content field of the URI structure, a FALSE return a difference; NULL cases, symmetry, no writes.'),
